@@ -52,8 +52,11 @@ def finish(chk, known_findings, min_obligations, extra_cov) -> int:
     for v in chk.vcs:
         if v.verdict == "error":
             faults.append(f"{v.name}: {v.detail}")
+    failing_funcs = {v.func for v in chk.vcs if v.expect == "valid" and v.verdict == "sat"}
     for v in canaries:
-        if v.verdict == "unsat":
+        if v.verdict == "unsat" and v.func in failing_funcs:
+            chk.notes.append(f"canary {v.name} proved while an obligation of the same function fails (coincides with the changed code)")
+        elif v.verdict == "unsat":
             faults.append(f"canary {v.name} was proved: the facts of this obligation are contradictory (vacuous proof)")
         elif v.verdict != "sat":
             chk.notes.append(f"canary {v.name} undecided ({v.detail})")
